@@ -98,6 +98,9 @@ def run(ctx):
             if k % 10 == 6:
                 i = text.rfind("component main")
                 text = (text if i < 0 else text[:i]) + "\n/* é */ template Open%d() {\n  signal input in_%d" % (k, k)     # the file ends inside a definition
+            if k % 10 == 4:
+                # a version the tool does not support, behind a header comment: the error is about the pragma statement (audit C04 round 2 f3)
+                text = "/* licence é\n * header\n */\n// 𝔸\n" + re.sub(r"pragma\s+circom\s+2\.0\.0\s*;", "pragma circom /* v */ 3.%d.0 ;" % (k % 7), text, count=1)
             if k % 10 == 5:
                 # comparator inputs that also feed a range check: the finding is about the LessThan input, not about the Num2Bits one
                 text = before_main(text, "\ntemplate LessThan(n) { signal input in[2]; signal output out; out <== in[0] - in[1] + n; }\n"
@@ -130,6 +133,10 @@ def run(ctx):
                             why = "the message speaks about the end of the file (offset %s) but the label is %d..%d" % (m_at.group(1), l["start"], l["end"])
                         if "end of file" in (r["message"] or "").lower() and not m_at and l["end"] < len(sources[p].rstrip()):
                             why = "the message speaks about the end of the file but the label %d..%d is not there (%d bytes)" % (l["start"], l["end"], len(sources[p]))
+                        if "which is not supported by Circomspect" in (r["message"] or ""):
+                            under = sources[p][l["start"]:l["end"]].decode("utf-8", "replace")
+                            if not re.fullmatch(r"pragma\s+circom\b.*;", c05.blank_comments(under) or under, re.S):
+                                why = "the message is about the version pragma but the text under the primary label is %r" % under[:60]
                         if (r["message"] or "").startswith("Inputs to `LessThan`"):
                             # the statement under the label assigns an input of a LessThan component
                             line_start = sources[p].rfind(b"\n", 0, l["start"]) + 1
